@@ -235,7 +235,7 @@ def check_kind_spelling(case):
 
 
 BAD_COLOURS = ['#12', '#12345', '#ggg', '', 'nocolor', '#1234567', [1, 2], [256, 0, 0], [0, 0, 0, 256], [1, 2, 3, 4, 5], [-1, 0, 0],
-               [0, 0, 0, -1], '#', 'rgb(1,2,3)']
+               [0, 0, 0, -1], '#', 'rgb(1,2,3)', '##fff', '##12ab00', '###0000ff', '#fff#', ' #fff', '#fff ', '#ff ff', '0x123456', '#-12345']
 COLOUR_KINDS = ('png', 'svg', 'eps', 'pdf', 'pam', 'ppm', 'xpm')
 SCALE_KINDS = ('png', 'svg', 'eps', 'pdf', 'pam', 'ppm', 'xpm', 'xbm', 'pbm', 'tex')
 ALL_KINDS = ('png', 'svg', 'eps', 'pdf', 'pam', 'ppm', 'xpm', 'xbm', 'pbm', 'tex', 'txt', 'ans')
@@ -521,6 +521,10 @@ def exclusion_grid():
     add('make_micro', '1', error='H')
     add('make_micro', '书', mode='hanzi')
     add('make', '1', micro=True, eci=True)
+    for mode, content in (('numeric', '123'), ('alphanumeric', 'AB'), ('kanji', '点'), ('byte', 'ab'), ('NUMERIC', '7'), (1, '42')):
+        add('make', content, micro=True, eci=True, mode=mode)
+        add('make', content, version='M4', eci=True, mode=mode)
+        add('make', content, micro=True, error='H', mode=mode)
     add('make', '1', micro=True, error='h')
     add('make', '1', micro=True, version=1)
     add('make', 'A', version='M1')
